@@ -620,6 +620,7 @@ func runC01(w *World, r *Report) {
 
 func runC08(w *World, r *Report) {
 	c08Mirrors(w, r)
+	c08WholeTableAndDistinctBackups(w, r)
 	c08Flush(w, r)
 	c08Hooks(w, r)
 	c01Release(w, r, "C08-d")
@@ -682,6 +683,92 @@ func c08Mirrors(w *World, r *Report) {
 			r.Check(found, "C08-a", fnName(fn), "mirror at "+which+" written from the primary's buffer", w.relFile(c.Pos()), "same SSA value written to primary and mirror",
 				"the copy addressed by "+which+" is not written from the same buffer as the primary copy in this function: the two copies can differ")
 		}
+	}
+}
+
+// exprString renders an SSA integer expression as a canonical string over field names, accessor calls,
+// parameters and constants (for comparing two offset formulas).
+func exprString(v ssa.Value, depth int) string {
+	if depth > 12 {
+		return "..."
+	}
+	v = stripConv(v)
+	switch x := v.(type) {
+	case *ssa.Const:
+		return x.Value.String()
+	case *ssa.BinOp:
+		a, b := exprString(x.X, depth+1), exprString(x.Y, depth+1)
+		if (x.Op == token.ADD || x.Op == token.MUL) && a > b {
+			a, b = b, a
+		}
+		return "(" + a + x.Op.String() + b + ")"
+	case *ssa.UnOp:
+		if x.Op == token.MUL {
+			if _, f, _, ok := fieldOfAddr(x.X); ok {
+				return "." + f.Name()
+			}
+		}
+	case *ssa.Field:
+		if _, f, _, ok := fieldOfAddr(x); ok {
+			return "." + f.Name()
+		}
+	case *ssa.Call:
+		if n := callMethodName(x); n != "" && len(argsOf(x)) == 0 {
+			return n + "()"
+		}
+	case *ssa.Parameter:
+		return "$" + x.Name()
+	}
+	return "?" + v.Name()
+}
+
+// c08WholeTableAndDistinctBackups: (1) the FAT copies are written from the unsliced encoding of the whole
+// table, so no stale tail survives on disk; (2) two different backup structures (backup boot sector, backup
+// FSInfo) are never addressed by the same offset formula.
+func c08WholeTableAndDistinctBackups(w *World, r *Report) {
+	for _, fn := range w.ModFns {
+		if !inFatPkg(w, fn) {
+			continue
+		}
+		for _, c := range calls(fn, false, isWriteAt) {
+			po := w.prov(argsOf(c)[1], provOpts{})
+			if !(po.hasField("", "fatPrimaryStart") || po.hasField("", "fatSecondaryStart")) {
+				continue
+			}
+			data := argsOf(c)[0]
+			call, ok := data.(*ssa.Call)
+			whole := ok && callMethodName(call) == "Bytes"
+			r.Check(whole, "C08-a", fnName(fn), "FAT copy written from the whole table encoding #"+ordinal(fn, c), w.relFile(c.Pos()), "data = table.Bytes()",
+				"a FAT copy is written from something other than the complete, unsliced table encoding ("+shortVal(data)+"): entries beyond the written window keep their stale on-disk value")
+		}
+	}
+	type site struct {
+		fn   *ssa.Function
+		call ssa.CallInstruction
+		expr string
+	}
+	var backups []site
+	for _, fn := range w.ModFns {
+		if w.pkgOf(fn) != "filesystem/fat32" {
+			continue
+		}
+		for _, c := range calls(fn, false, isWriteAt) {
+			off := argsOf(c)[1]
+			if !w.prov(off, provOpts{}).hasField("", "backupBootSector") {
+				continue
+			}
+			backups = append(backups, site{fn, c, exprString(off, 0)})
+		}
+	}
+	for i, a := range backups {
+		clash := ""
+		for j, b := range backups {
+			if i != j && a.expr == b.expr && a.fn != b.fn {
+				clash = fnName(b.fn) + " at " + w.relFile(b.call.Pos())
+			}
+		}
+		r.Check(clash == "", "C08-a", fnName(a.fn), "backup location is distinct from other backups #"+ordinal(a.fn, a.call), w.relFile(a.call.Pos()), a.expr,
+			"this backup write uses the same offset formula "+a.expr+" as "+clash+": one backup structure overwrites the other")
 	}
 }
 
